@@ -620,6 +620,14 @@ VPrune(S, e, S2) ==
         /\ \A s \in DOMAIN S2.subs : S2.subs[s].topic \in DOMAIN S2.topics
         /\ \A m \in DOMAIN S2.msgs : S2.msgs[m].topic \in DOMAIN S2.topics)
 
+(* C15, second half: after everything was deleted through the API and the   *)
+(* clock moved past every threshold, rounds of all jobs reached a fixpoint;  *)
+(* nothing may be left in any table.                                         *)
+VConverged(S, e, S2) ==
+  Chk("C15:not-converged",
+      e.left.topics = 0 /\ e.left.subs = 0 /\ e.left.msgs = 0 /\ e.left.del = 0 /\ e.left.snaps = 0)
+  \cup Chk("C15:converged-changed-state", Core(S2) = Core(S))
+
 PruneJobs == {"PruneCompletedDeliveries", "PruneExpiredDeliveries", "PruneCompletedMessages",
               "PruneDeletedSubscriptionDeliveries", "PruneDeletedSubscriptions",
               "PruneDeletedTopics"}
@@ -711,6 +719,7 @@ V(S, e, S2) ==
     [] e.op = "Get" -> VGet(S, e, S2)
     [] e.op = "List" -> VList(S, e, S2)
     [] e.op = "Failed" -> VFailed(S, e, S2)
+    [] e.op = "Converged" -> VConverged(S, e, S2)
     [] OTHER -> {"C00:unknown-op"}
 
 (***************************************************************************)
@@ -733,7 +742,7 @@ Addressed(S, e) ==   \* the subscriptions an operation is allowed to touch deliv
   CASE e.op \in {"Pull", "PullTimeout", "SeekTime", "SeekSnap"} -> SubsNamed(S, e.sub)
     [] e.op \in {"DeleteSub", "UpdateSub", "SetDelay"} -> SubsNamed(S, e.name)
     [] e.op \in {"Ack", "ModAck", "Nack"} -> {d[2] : d \in Named(S, e)}
-    [] e.op \in {"CreateTopic", "DeleteTopic", "CreateSub", "CreateSnap", "DeleteSnap", "Get", "List", "Tick"} -> {}
+    [] e.op \in {"CreateTopic", "DeleteTopic", "CreateSub", "CreateSnap", "DeleteSnap", "Get", "List", "Tick", "Converged"} -> {}
     [] OTHER -> DOMAIN S.subs      \* publish, background jobs, failed attempts: judged by their own clauses
 
 VGeneric(S, e, S2) ==
